@@ -6,9 +6,20 @@
 # A patch's property is taken from its file name (mNNx-… → CNN) or from seeded/<id>/meta.json.
 set -u
 cd "$(dirname "$0")" || exit 2
-REPO=/repo
-if ! git -C "$REPO" diff --quiet; then echo "refusing: $REPO has uncommitted changes" >&2; exit 2; fi
-trap 'git -C "$REPO" checkout -- . 2>/dev/null' EXIT INT TERM
+# By default the patches are applied to a scratch worktree of /repo (removed afterwards, with its
+# build output) and the checks are pointed at it with VERIF_REPO; IN_PLACE=1 applies them to
+# /repo itself instead (git -C /repo apply ...; checks; git -C /repo checkout -- .).
+if [ "${IN_PLACE:-0}" = "1" ]; then
+    REPO=/repo
+    if ! git -C "$REPO" diff --quiet; then echo "refusing: $REPO has uncommitted changes" >&2; exit 2; fi
+    trap 'git -C "$REPO" checkout -- . 2>/dev/null' EXIT INT TERM
+else
+    REPO=/tmp/verif-mut-wt-$$
+    git -C /repo worktree add -q --detach "$REPO" HEAD || exit 2
+    VERIF_REPO="$REPO"; export VERIF_REPO
+    tag=$(printf '%s' "$REPO" | cksum | cut -d' ' -f1)
+    trap 'git -C /repo worktree remove --force "$REPO" 2>/dev/null; rm -rf "sim/target-alt-$tag" "sim/target-asan-alt-$tag"' EXIT INT TERM
+fi
 # evidence written while a mutant is applied must not replace the evidence of the real tree
 VERIF_EVIDENCE_DIR="$(pwd)/sim/scratch/evidence-mutants"; export VERIF_EVIDENCE_DIR; mkdir -p "$VERIF_EVIDENCE_DIR"
 patches=""
